@@ -1121,6 +1121,8 @@ class WcParse(Generic[AnyStr]):
             if c == '[':
                 last_posix = self._handle_posix(i, result, end_range)
                 if last_posix:
+                    # The pending range (`z-[:digit:]`) was resolved by escaping its hyphen: the next member starts afresh
+                    end_range = 0
                     c = next(i)
                     continue
 
